@@ -191,7 +191,11 @@ pub fn c16(tier: &str, seed: u64) -> Vec<Case> {
     // instance information built by inserting the same members in different orders
     for _ in 0..(if thorough { 4000 } else { 400 }) {
         let nips = r.below(5) as usize;
-        let ips: Vec<IpAddr> = (0..nips).map(|_| if r.chance(1, 2) { IpAddr::V4(Ipv4Addr::from(r.below(6) as u32 + 0x0A000000)) } else { IpAddr::V6(Ipv6Addr::from(r.below(6) as u128 + (0xFE80u128 << 112))) }).collect();
+        let ips: Vec<IpAddr> = (0..nips).map(|_| match r.below(5) { 0 | 1 => IpAddr::V4(Ipv4Addr::from(r.below(6) as u32 + 0x0A000000)),
+            // the IPv4-mapped and IPv4-compatible forms of the same addresses: distinct members that some orderings identify
+            2 => IpAddr::V6(Ipv6Addr::from(r.below(6) as u128 + 0x0A000000u128 + (0xFFFFu128 << 32))),
+            3 if r.chance(1, 3) => IpAddr::V6(Ipv6Addr::from(r.below(6) as u128 + 0x0A000000u128)),
+            _ => IpAddr::V6(Ipv6Addr::from(r.below(6) as u128 + (0xFE80u128 << 112))) }).collect();
         let ports: Vec<u16> = (0..r.below(5)).map(|_| 8000 + r.below(6) as u16).collect();
         let name = format!("inst{}", r.below(3));
         // the same attribute map inserted in ascending and in descending key order
